@@ -198,6 +198,25 @@ def run(ctx):
         add_constants(ns3, reg)
         add_constants(ns3, reg)  # idempotent
         check_namespace(ctx, ns3, sname + "+twice", default_ns)
+    # code-unit systems: the same system NAME over registries that define the code units differently, one after the other
+    # (and the same registry again after its code units were modified): every namespace still holds the default constants
+    from unyt import dimensions as udims
+
+    for tag, (cl, cm_, ct) in (("first", (2.0, 3.0, 4.0)), ("second", (5.0, 7.0, 0.5))):
+        reg = UnitRegistry()
+        reg.add("code_length", cl, udims.length)
+        reg.add("code_mass", cm_, udims.mass)
+        reg.add("code_time", ct, udims.time)
+        reg.unit_system = UnitSystem("verif_code", "code_length", "code_mass", "code_time", registry=reg)
+        ns = {}
+        add_constants(ns, reg)
+        check_namespace(ctx, ns, "code-system-" + tag, default_ns)
+        if tag == "second":
+            reg.modify("code_length", 11.0)
+            reg.modify("code_mass", 13.0)
+            ns = {}
+            add_constants(ns, reg)
+            check_namespace(ctx, ns, "code-system-after-modify", default_ns)
     # top-level namespace exports
     for cname, (_v, _u, aliases) in TABLE.items():
         for nm in [cname] + list(aliases):
@@ -214,7 +233,7 @@ def run(ctx):
             "rule": "finite and complete: every constant x alias x {plain,_mks,_cgs} x {default namespace, registry with each of "
             "7 built-in and 2 generated unit systems}; 15 defining relations; every name that is both constant and unit "
             "(found by intersection); every table value vs its class tolerance",
-            "axes": {"constants": len(TABLE), "namespaces": 10, "relations": 15},
+            "axes": {"constants": len(TABLE), "namespaces": 10 * 3 + 3, "relations": 15, "code_unit_systems": "one system name over two registries with different code units, and after modify"},
         },
         "assumptions": ["ref/deftable.CONSTANTS (CODATA 2018 / IAU values, class tolerances) and the EM counterpart factors are typed independently"],
     }
